@@ -323,9 +323,16 @@ def run(sc: dict) -> RunResult:
     reseek0 = sf.n_seek
 
     def resync():
-        # nothing is assumed about the state after a rejected call: re-establish
-        # a known aligned position with an absolute seek, which must succeed
+        # a rejected call must leave the view where it was (an ordinary file's failed seek/read does not move
+        # the cursor); then re-establish a known position with an absolute aligned seek, which must succeed
         nonlocal pos
+        try:
+            t = view.tell()
+        except Exception as e:      # noqa: BLE001
+            t = "raised %s" % type(e).__name__
+        if t != pos:
+            res.add(PROP, "position_after_rejected_call", "after a rejected unaligned call tell() is %r, was %r before the call" % (t, pos))
+            return False
         try:
             r = view.seek(0, 0)
         except Exception as e:      # noqa: BLE001
